@@ -52,7 +52,7 @@ func c08Lists(level int) []enumList {
 
 func c08(ctx *Ctx) {
 	cases, want := c08Cases(ctx.Level)
-	runBehaviour(ctx, behaviour{Name: "enum", Cases: cases, Devs: c08Devs, Values: true,
+	runBehaviour(ctx, behaviour{Name: "enum", Cases: cases, Devs: c08Devs, Values: true, Respell: true,
 		ModelInit: func(m *refmodel.Model) { m.EnumNullJudged = true },
 		OnProgram: func(sc *SCase, p *batch.Program) { c08Consts(ctx, sc, p, want[sc.ID]) },
 		DocFilter: func(sc *SCase, d *refmodel.Doc, tv refmodel.Verdict) bool {
